@@ -444,6 +444,10 @@ func c14Mutate(version string, tree jv, f c14Fault) ([]byte, jv, string) {
 		return []byte(jplain(out)), out, c14ClassOK
 	case "strip-state-key":
 		out := c14Sign(version, tree.without("state_key"))
+		if vtraits[version].Creators && c14IsCreate(tree) {
+			// without its state key it is no create event, and every other event needs a room_id
+			return []byte(jplain(out)), out, c14ClassUnparsed
+		}
 		return []byte(jplain(out)), out, c14ClassOK
 	case "truncate":
 		raw := []byte(jplain(tree))
@@ -703,7 +707,7 @@ func c14GenWorld(t *rapid.T, minEvents, maxEvents int) *c14World {
 		}
 		w.tainted = append(w.tainted, false)
 	}
-	if rapid.IntRange(0, 9).Draw(t, "taint") < 8 {
+	if c14Chance(t, "taint", 80) {
 		w.taint(t)
 	}
 	return w
@@ -719,7 +723,7 @@ func (w *c14World) taint(t *rapid.T) {
 			cands = append(cands, e.Idx)
 		}
 	}
-	if len(cands) == 0 || rapid.IntRange(0, 2).Draw(t, "manufacture") == 0 {
+	if len(cands) == 0 || c14Chance(t, "manufacture", 33) {
 		// manufacture: a join that the state at some point refuses, or a self-promotion
 		at := rapid.IntRange(1, len(r.Events)-1).Draw(t, "taintAt")
 		st := r.Events[at].State
@@ -750,20 +754,27 @@ func (w *c14World) taint(t *rapid.T) {
 	}
 	parent := R.Idx
 	n := rapid.IntRange(1, 3).Draw(t, "taintN")
+	invited := ""
 	for k := 0; k < n; k++ {
 		target := rapid.SampledFrom(grUsers[1:]).Draw(t, "taintTarget")
 		var typ string
 		var sk *string
 		var content jv
 		who := actor
-		switch rapid.IntRange(0, 5).Draw(t, "taintAction") {
-		case 0, 1:
+		action := rapid.SampledFrom([]int{0, 0, 1, 2, 2, 2, 3, 4}).Draw(t, "taintAction")
+		if invited != "" && c14Chance(t, "taintAccept", 60) {
+			action, target = 3, invited
+		}
+		invited = ""
+		switch action {
+		case 0:
 			typ, sk, content = "m.room.topic", raSK(""), jobj("topic", jstr(fmt.Sprint("tainted", k)))
-		case 2:
+		case 1:
 			typ, sk, content = "org.example.state", raSK(actor), jobj("v", jnum(int64(k)))
-		case 3:
+		case 2:
 			typ, sk, content = "m.room.member", raSK(target), jobj("membership", jstr("invite"))
-		case 4:
+			invited = target
+		case 3:
 			who = target
 			typ, sk, content = "m.room.member", raSK(target), jobj("membership", jstr("join"))
 		default:
@@ -841,6 +852,19 @@ func c14Has(l []int, x int) bool {
 		}
 	}
 	return false
+}
+
+// c14Chance is true with (about) the given probability. rapid's IntRange and SampledFrom favour small
+// values / early entries, so the probability is assembled from fair coin flips.
+func c14Chance(t *rapid.T, label string, percent int) bool {
+	n := 0
+	for i := 0; i < 5; i++ {
+		n <<= 1
+		if rapid.Bool().Draw(t, label) {
+			n |= 1
+		}
+	}
+	return n*100/32 < percent
 }
 
 func c14Shuffle(t *rapid.T, l []int, label string) []int {
